@@ -627,3 +627,50 @@ theorem kill_heap (hp : Heap Addr) {w : World} (h : WF w) (R : Rep hp (ringOf w)
         cases hek; exact (hdisj e he f').2 hk
 
 end Tromp.C14Ring
+
+namespace Tromp.C14Ring
+open Tromp Tromp.Ring World
+
+/-! ### the sequences' pending lists (`sequence_type::matchers`) as a ring family
+
+A `sequence_matcher` handle is owned by one (owner, sequence) pair, so its address carries both; the list object of
+sequence `s` is `SAddr.pending s`.  `WFSeq` (proved for every reachable world, Props/C14.lean) gives duplicate-freeness;
+different sequences' lists are disjoint by the addresses alone. -/
+
+inductive SAddr
+  | pending (s : Nat)
+  | handle (o : Owner) (s : Nat)
+  deriving DecidableEq, Repr
+
+/-- the sequences' pending lists as a ring family, over the sequence ids below `n`. -/
+def seqRingOf (w : World) (n : Nat) : Abs SAddr :=
+  ⟨(List.range n).map SAddr.pending,
+   fun a => match a with
+     | .pending s => (w.pendingOf s).map (fun o => SAddr.handle o s)
+     | .handle _ _ => []⟩
+
+theorem handle_injective (s : Nat) : Function.Injective (fun o => SAddr.handle o s) :=
+  fun _ _ h => by cases h; rfl
+
+/-- **the pending lists of every reachable world are a well-formed ring family.** -/
+theorem seq_lists_wellformed {w : World} (r : C14.Reachable w) (n : Nat) : AbsWf (seqRingOf w n) := by
+  have hs := C14.reachable_WFSeq r
+  refine ⟨?_, ?_, ?_⟩
+  · exact (List.nodup_range).map (fun _ _ h => by cases h; rfl)
+  · intro hd hm
+    obtain ⟨s, _, rfl⟩ := List.mem_map.mp hm
+    simp only [seqRingOf, List.nodup_cons, List.mem_map, reduceCtorEq, and_false, exists_false, not_false_eq_true, true_and]
+    exact (hs.nodup s).map (handle_injective s)
+  · intro hd1 h1 hd2 h2 ne y hy hin
+    obtain ⟨s1, _, rfl⟩ := List.mem_map.mp h1
+    obtain ⟨s2, _, rfl⟩ := List.mem_map.mp h2
+    simp only [seqRingOf, List.mem_cons, List.mem_map] at hy hin
+    rcases hy with rfl | ⟨o1, _, rfl⟩
+    · rcases hin with hin | ⟨o2, _, hin⟩
+      · exact ne hin
+      · cases hin
+    · rcases hin with hin | ⟨o2, _, hin⟩
+      · cases hin
+      · cases hin; exact ne rfl
+
+end Tromp.C14Ring
